@@ -101,7 +101,57 @@ pub struct MapInit<T, I, F> {
 }
 
 impl<T: Send, I, F> MapInit<T, I, F> {
+    /// `map` after `map_init`: the mapping runs on the worker, right after the item's operation
+    pub fn map<S, R, R2, G2>(self, g2: G2) -> MapInit<T, I, impl Fn(&mut S, T) -> R2 + Sync>
+    where
+        I: Fn() -> S + Sync,
+        F: Fn(&mut S, T) -> R + Sync,
+        G2: Fn(R) -> R2 + Sync,
+    {
+        let f = self.f;
+        MapInit {
+            items: self.items,
+            init: self.init,
+            f: move |s: &mut S, t: T| g2(f(s, t)),
+        }
+    }
+
+    /// short-circuiting terminal, as rayon's: once an item satisfies the predicate no further item is started
+    pub fn any<S, R, P>(self, p: P) -> bool
+    where
+        I: Fn() -> S + Sync,
+        F: Fn(&mut S, T) -> R + Sync,
+        P: Fn(R) -> bool + Sync,
+    {
+        let found = std::sync::atomic::AtomicBool::new(false);
+        self.run(|r| {
+            if p(r) {
+                found.store(true, std::sync::atomic::Ordering::SeqCst);
+            }
+        }, Some(&found));
+        found.into_inner()
+    }
+
+    /// short-circuiting terminal, as rayon's: once an item fails the predicate no further item is started
+    pub fn all<S, R, P>(self, p: P) -> bool
+    where
+        I: Fn() -> S + Sync,
+        F: Fn(&mut S, T) -> R + Sync,
+        P: Fn(R) -> bool + Sync,
+    {
+        !self.any(|r| !p(r))
+    }
+
     pub fn for_each<S, R, G>(self, g: G)
+    where
+        I: Fn() -> S + Sync,
+        F: Fn(&mut S, T) -> R + Sync,
+        G: Fn(R) + Sync,
+    {
+        self.run(g, None)
+    }
+
+    fn run<S, R, G>(self, g: G, stop: Option<&std::sync::atomic::AtomicBool>)
     where
         I: Fn() -> S + Sync,
         F: Fn(&mut S, T) -> R + Sync,
@@ -122,6 +172,9 @@ impl<T: Send, I, F> MapInit<T, I, F> {
                     loop {
                         if let Some(rt) = &rt {
                             rt.point("pick", Path::new(""));
+                        }
+                        if stop.is_some_and(|s| s.load(std::sync::atomic::Ordering::SeqCst)) {
+                            break;
                         }
                         let Some(item) = queue.lock().unwrap().pop_front() else {
                             break;
